@@ -491,6 +491,10 @@ func rangeScan[K nodeKey, V any, L nodeLeaf[V]](
 	return func(yield func(K, V) bool) {
 		// every pending node carries the depth of its own path: siblings must not
 		// inherit the depth reached below an earlier sibling
+		if root.pointer == nil {
+			return
+		}
+
 		var q []rangeEntry
 
 		q = append(q, rangeEntry{ref: root})
